@@ -26,6 +26,7 @@ from . import common
 from .common import MachineryError
 
 LEVEL = "model_checking"
+TLC_WORKERS = int(os.environ.get("VERIF_TLC_WORKERS", "16"))
 
 CP_BASE = 0xE000  # abstract character u of a generated font is code point U+E000 + u
 GLYPH_NAMES = [".notdef", "a", "b", "c", "d", "e", "f", "g"]
@@ -875,6 +876,13 @@ def judge(chk, fonts, traces, label, chunk=1500):
 
 
 def report(chk, rejected):
+    dump = os.environ.get("VERIF_C07_DUMP")  # development aid: every rejection, one JSON line each
+    if dump:
+        import json
+
+        with open(dump, "a") as f:
+            for t, clause, pos in rejected:
+                f.write(json.dumps({"clause": clause, "pos": pos, "label": t.get("label"), "replay": t.get("replay")}) + "\n")
     for t, clause, pos in rejected:
         rp = t.get("replay", {})
         if clause.startswith("trace:"):
@@ -896,14 +904,33 @@ def nontrivial(t, font):
 def run_model(chk):
     thorough = chk.tier == "thorough"
     cfgs = ["MC_Subset_thorough", "MC_Subset_opts_thorough"] if thorough else ["MC_Subset", "MC_Subset_opts"]
-    gens = []
-    for cfg in cfgs:
-        r = chk.tlc("MC_Subset", cfg=cfg, label=cfg, timeout=3000 if thorough else 1200)
-        chk.log("%s: %d distinct states, %d cases emitted, %.0fs" % (cfg, r.distinct, len(r.prints.get("GEN", [])), r.wall))
-        import json
+    import json
 
-        for p in r.prints.get("GEN", []):
-            gens.append(json.loads(p[0]))
+    gens = []
+    cache = os.environ.get("VERIF_C07_MCACHE")  # development / sensitivity-run aid only: (M) does not depend on the code under test
+    for cfg in cfgs:
+        cpath = None
+        if cache:
+            key = common.digest([open(os.path.join(common.SPECS, f)).read() for f in
+                                 ("Subset.tla", "OTLSem.tla", "MC_Subset.tla", cfg + ".cfg")])[:12]
+            cpath = os.path.join(cache, "%s-%s.json" % (cfg, key))
+        if cpath and os.path.exists(cpath):
+            with open(cpath) as f:
+                c = json.load(f)
+            chk.states += c["distinct"]
+            chk.transitions += c["generated"]
+            chk.tlc_runs.append(c["run"])
+            chk.log("%s: cached (M) result, %d cases" % (cfg, len(c["gens"])))
+            gens += c["gens"]
+            continue
+        r = chk.tlc("MC_Subset", cfg=cfg, label=cfg, workers=TLC_WORKERS, timeout=3000 if thorough else 1200)
+        chk.log("%s: %d distinct states, %d cases emitted, %.0fs" % (cfg, r.distinct, len(r.prints.get("GEN", [])), r.wall))
+        g = [json.loads(p[0]) for p in r.prints.get("GEN", [])]
+        gens += g
+        if cpath:
+            os.makedirs(cache, exist_ok=True)
+            with open(cpath, "w") as f:
+                json.dump({"distinct": r.distinct, "generated": r.generated, "run": chk.tlc_runs[-1], "gens": g}, f)
     if not gens:
         raise MachineryError("MC_Subset emitted no cases")
     chk.notes["model_cases_emitted"] = len(gens)
